@@ -329,6 +329,18 @@ pub fn set_faults(f: Faults) {
         FAULTS = f;
     }
 }
+/// native replay only: back to the state a fresh process starts in (the worlds themselves are
+/// overwritten by every scenario's `Handle::new`)
+#[cfg(not(kani))]
+pub fn reset_globals() {
+    unsafe {
+        FAULTS = NOFAULTS;
+        FAIL_BEGIN = false;
+        crate::env::RNG = crate::env::Rng { vals: [0; crate::env::RNG_N], next: 0 };
+        crate::env::NOW_SECS = crate::env::NOW0;
+        crate::env::NOW_READS = 0;
+    }
+}
 pub fn faults() -> Faults {
     unsafe { FAULTS }
 }
